@@ -90,6 +90,27 @@ def rotation_publish_order(ctx, prog, eff, rid):
              else '%d switch site(s); every exit after them is Ok' % len(sw))
 
 
+def drop_unsound_threading(body):
+    """flow.threaded_successors redirects the LAST block of the goto/drop chain between `_b = const` and the switch on `_b` — also when that block is a join
+    that other definitions of `_b` flow through (`match r { Ok(x) => f(x), Err(_) => false }` followed by a shared `drop(r)` block and then `if flag`): every
+    path through the join is then sent to the constant's target and the switch is never seen.  Such redirections are removed here (the explorer's own constant
+    propagation still resolves the switch on the constant's path): a redirection is kept only when the redirected block is reached from the block holding the
+    constant assignment through blocks with a single predecessor."""
+    red = flow.threaded_successors(body)
+    for cur in list(red):
+        x, ok = cur, False
+        for _ in range(8):
+            if any(st.get('rv', {}).get('k') == 'use' and st['rv']['a'].get('k') == 'c' and st['rv']['a'].get('ty') == 'bool' for st in body.blocks[x]['s']):
+                ok = True
+                break
+            ps = body.pred(x)
+            if len(ps) != 1:
+                break
+            x = ps[0]
+        if not ok:
+            del red[cur]
+
+
 def policy_mapping(ctx, prog, rid):
     """C01.R13: configuration value → engine fsync policy, edge by edge."""
     fam = prog.family(ctx.body(rid, 'kyrodb_server::main'))
@@ -499,7 +520,12 @@ def run(ctx, prog):
                  pathsens.Atom('dir_exists', r'^bool\[Path::exists\((?!.*MANIFEST).*data_dir.*\)\]$'),
                  pathsens.Atom('recovery_enabled', r'^bool\[.*PersistenceConfig\.enable_recovery\]$'),
                  # the data directory still holds snapshot / log files (derived from read_dir(data_dir)): a lost MANIFEST, not a fresh directory
-                 pathsens.Atom('orphaned', r'^bool\[Result::unwrap_or\(Result::map\(fs::read_dir\(.*PersistenceConfig\.data_dir.*\), closure:.*\), (0|false)\)\]$')]
+                 pathsens.Atom('orphaned', r'^bool\[Result::unwrap_or\(Result::map\(fs::read_dir\(.*PersistenceConfig\.data_dir.*\), closure:.*\), (0|false)\)\]$'),
+                 # the same probe written as a match: `match read_dir(data_dir) { Ok(entries) => entries.flatten().any(..), Err(_) => false }` — the switch on the flag
+                 # renders as the Ok arm's value; on the Err arm the flag is the constant the arm assigns, which the explorer propagates to that switch (a constant
+                 # `false` takes the ¬orphaned edge as unwrap_or(false) does, a constant `true` the refusing one)
+                 pathsens.Atom('orphaned', r'^bool\[Iterator::any\(Iterator::flatten\(fs::read_dir\(.*PersistenceConfig\.data_dir.*\)@Ok→Ok\.0\), closure:.*\)\]$')]
+        drop_unsound_threading(m)
         terms, seen = pathsens.explore(m, atoms, mark_edges={'recover_ok': set(s_e), 'recover_err': set(f_e), 'quarantined': set(ren)},
                                        stop_blocks=new_blocks, max_states=400000)
         arrivals = [t for t in terms if t[0] in new_blocks]
@@ -511,8 +537,10 @@ def run(ctx, prog):
             ctx.missing('C01.R6', 'main: Err arm of TieredEngine::recover')
         bad = []
         for (bb, via, a, path) in arrivals:
-            good = (a.get('attempt') is False) or (a.get('recover_err') and a.get('fresh_allowed') is True and
-                                                   (a.get('quarantined') or a.get('dir_exists') is False))
+            # recovery not attempted = ¬(enable_recovery ∧ MANIFEST exists): the conjunction tested false as a whole (named bool), or — when the condition is
+            # tested in place — its first conjunct false (the MANIFEST test is then never evaluated), or the second
+            good = (a.get('attempt') is False) or (a.get('recovery_enabled') is False and not a.get('recover_ok') and not a.get('recover_err')) or \
+                   (a.get('recover_err') and a.get('fresh_allowed') is True and (a.get('quarantined') or a.get('dir_exists') is False))
             if not good:
                 bad.append((bb, a, path))
         # with recovery enabled, "no MANIFEST" means a fresh directory only if no snapshot / log file is there: otherwise the MANIFEST was lost and starting empty
